@@ -140,3 +140,23 @@ def limit_guards(ctx, rep, R, prefix):
         if not ok:
             rep.finding(R, f'{prefix}/{case}', cons[0].split(' ')[0] if cons else 'pytableaux/proof/rules.py', case.split(':')[0], f'{case}: {detail}')
     rep.floor(R, 'limit guard states', len(res), 12)
+
+
+def fair_gate(ctx, rep, R, prefix):
+    """No starvation behind the fairness gate (helpersfold.fold_fair_gate); shared by C02.R8 and the properties that compare
+    verdicts across runs (C09 premise order, C10 added premises, C11 logic pairs): an unsaturated open branch flips a verdict."""
+    from .. import helpersfold
+    res, cons, nsites = helpersfold.fold_fair_gate(ctx.m, ctx.lgs)
+    rep.consult(*cons)
+    seen = set()
+    for ok, case, detail, where in res:
+        rep.instance(R, ok=ok, nontrivial=case)
+        if not ok:
+            k = case.split(':')[0]
+            if k in seen:
+                continue
+            seen.add(k)
+            rep.finding(R, f'{prefix}/{k}', where.split(' ')[0], k, f'{case}: {detail}')
+    rep.floor(prefix, 'gated rule producers', nsites, 1)
+    rep.floor(prefix, 'states', len(res), 30)
+    return len(res)
